@@ -585,4 +585,149 @@ theorem disjoint_symm (a b : List Nat) : disjointB a b = disjointB b a := by
   · exact absurd (h a b h1) (by simp [h2])
   · rfl
 
+/-! ## lookup order is a permutation of the elements -/
+
+/-- what `lookup_order` keeps while it runs: `done` and `order` have the same members, `order` has no
+repetition, and everything in it is a member of the group -/
+def PInv (g : List Nat) (s : List Nat × List Nat) : Prop :=
+  (∀ x, x ∈ s.1 ↔ x ∈ s.2) ∧ s.2.Nodup ∧ ∀ x ∈ s.2, x ∈ g
+
+theorem addToOrder_pinv (U : Universe) (g : List Nat) (hg : Closed U (ofList g)) :
+    ∀ (fuel e : Nat) (s : List Nat × List Nat), e ∈ g → PInv g s → PInv g (addToOrder U fuel e s) := by
+  intro fuel
+  induction fuel with
+  | zero => intro e s _ h; exact h
+  | succ n ih =>
+    intro e s he h
+    obtain ⟨done, order⟩ := s
+    unfold addToOrder
+    split
+    · exact h
+    · split
+      · exact h
+      · rename_i h1 h2
+        have hnot : e ∉ order := by
+          intro hc
+          have := (h.1 e).mpr hc
+          simp at h1
+          exact h1 this
+        have himp : ∀ o ∈ (elemAt U e).imp, o ∈ g := by
+          intro o ho
+          have := hg e (by simpa [ofList] using he) o (by simp [deps, ho])
+          simpa [ofList] using this
+        -- fold over the implied dimensions, all of which are members
+        have key : ∀ (l : List Nat) (a : List Nat × List Nat), (∀ o ∈ l, o ∈ g) → PInv g a →
+            PInv g (l.foldl (fun s o => addToOrder U n o s) a) := by
+          intro l
+          induction l with
+          | nil => intro a _ ha; exact ha
+          | cons o os ihl =>
+            intro a hl ha
+            simp only [List.foldl_cons]
+            exact ihl _ (fun o' ho' => hl o' (List.mem_cons_of_mem _ ho')) (ih o a (hl o (List.mem_cons_self)) ha)
+        apply key _ _ himp
+        refine ⟨?_, ?_, ?_⟩
+        · intro x
+          have := h.1 x; simp only at this
+          simp only [List.mem_cons, List.mem_append, List.mem_nil_iff, or_false]
+          constructor
+          · rintro (hx | hx)
+            · right; exact hx
+            · left; exact this.mp hx
+          · rintro (hx | hx)
+            · right; exact this.mpr hx
+            · left; exact hx
+        · simp only
+          rw [List.nodup_append]
+          refine ⟨h.2.1, by simp, ?_⟩
+          intro a ha b hb
+          simp at hb; subst hb
+          intro hab; subst hab; exact hnot ha
+        · intro x hx
+          simp only [List.mem_append, List.mem_cons, List.mem_nil_iff, or_false] at hx
+          rcases hx with hx | hx
+          · exact h.2.2 x hx
+          · subst hx; exact he
+
+theorem lookupLoop_pinv (U : Universe) (g : List Nat) (hg : Closed U (ofList g)) (req : List Nat)
+    (hreq : ∀ r ∈ req, r ∈ g) : ∀ (fuel : Nat) (s : List Nat × List Nat),
+    PInv g s → PInv g (lookupLoop U req fuel s) := by
+  intro fuel
+  induction fuel with
+  | zero => intro s h; exact h
+  | succ n ih =>
+    intro s h
+    unfold lookupLoop
+    split
+    · exact h
+    · apply ih
+      have key : ∀ (l : List Nat) (a : List Nat × List Nat), (∀ o ∈ l, o ∈ g) → PInv g a →
+          PInv g (l.foldl (fun s d => addToOrder U (U.length + 1) d s) a) := by
+        intro l
+        induction l with
+        | nil => intro a _ ha; exact ha
+        | cons o os ihl =>
+          intro a hl ha
+          simp only [List.foldl_cons]
+          exact ihl _ (fun o' ho' => hl o' (List.mem_cons_of_mem _ ho'))
+            (addToOrder_pinv U g hg _ o a (hl o (List.mem_cons_self)) ha)
+      exact key req s hreq h
+
+/-- a member of a closed group is one of the group's elements -/
+theorem mem_elements_of_mem (U : Universe) (g : List Nat) (hg : Closed U (ofList g)) (hlt : ∀ x ∈ g, x < U.length)
+    {x : Nat} (hx : x ∈ g) : x ∈ elements U g := by
+  unfold elements
+  rw [List.mem_filter]
+  refine ⟨List.mem_range.mpr (hlt x hx), ?_⟩
+  simp only [Bool.and_eq_true, List.all_eq_true, List.contains_eq_mem, decide_eq_true_eq, Bool.or_eq_true,
+    Bool.not_eq_true']
+  refine ⟨?_, Or.inr hx⟩
+  intro r hr
+  have := hg x (by simpa [ofList] using hx) r (by simp [deps, hr])
+  simpa [ofList] using this
+
+/-- **`lookup_order` is a permutation of the group's elements**: it has no repetition and its members
+are exactly `elements` — for every universe and every dependency-closed group (whatever the loop's
+fuel: what the loop did not reach is appended at the end, as in the source). -/
+theorem lookupOrder_perm (U : Universe) (g : List Nat) (hg : Closed U (ofList g))
+    (hlt : ∀ x ∈ g, x < U.length) :
+    (lookupOrder U g).Nodup ∧ ∀ e, e ∈ lookupOrder U g ↔ e ∈ elements U g := by
+  unfold lookupOrder
+  simp only []
+  generalize hs : lookupLoop U (required U g) (U.length + 1) ([], []) = s
+  have hreq : ∀ r ∈ required U g, r ∈ g := by
+    intro r hr; unfold required at hr; exact (List.mem_filter.mp hr).1
+  have hinv : PInv g s := by
+    rw [← hs]
+    apply lookupLoop_pinv U g hg _ hreq
+    exact ⟨fun x => by simp, by simp, fun x hx => by simp at hx⟩
+  obtain ⟨done, order⟩ := s
+  obtain ⟨h1, h2, h3⟩ := hinv
+  simp only at h1 h2 h3 ⊢
+  have hel : (elements U g).Nodup := by
+    unfold elements; exact List.Nodup.sublist List.filter_sublist List.nodup_range
+  constructor
+  · rw [List.nodup_append]
+    refine ⟨h2, List.Nodup.sublist List.filter_sublist hel, ?_⟩
+    intro a ha b hb hab
+    subst hab
+    rw [List.mem_filter] at hb
+    have := (h1 a).mpr ha
+    simp [this] at hb
+  · intro e
+    simp only [List.mem_append, List.mem_filter, Bool.not_eq_true', List.contains_eq_mem, decide_eq_false_iff_not]
+    constructor
+    · rintro (h | h)
+      · exact mem_elements_of_mem U g hg hlt (h3 e h)
+      · exact h.1
+    · intro h
+      by_cases hd : e ∈ done
+      · left; exact (h1 e).mp hd
+      · right; exact ⟨h, hd⟩
+
+/-- non-vacuity: a closed group of a small universe (instrument ← detector; band ⇐ physical_filter) -/
+example :
+    let U : Universe := [⟨true, [], []⟩, ⟨true, [], []⟩, ⟨true, [0], []⟩, ⟨true, [0], [1]⟩]
+    lookupOrder U [0, 1, 2, 3] = [0, 2, 3, 1] ∧ (∀ x ∈ [0, 1, 2, 3], x < U.length) := by decide
+
 end C12
